@@ -169,9 +169,35 @@ proof fn lemma_sw_le(s: Seq<char>) ensures sw(s) <= 2 * s.len() decreases s.len(
 // R13: `"  ".into()` (str -> String)
 #[verifier::external_body] fn str_into_string(x: &str) -> (r: String) ensures r@ == x@ { unimplemented!() }
 
+// C11: the minimum width a node may reserve — "the deepest stack of block prefixes plus the small minimum content width the layout
+// reserves (the configured minimum wrap width, or a few columns for a link)": text at most min_wrap_width, a link at most
+// max(its content, 5), containers the widest of their children, prefixed blocks their prefix plus the widest child; tables: no claim
+spec fn maxi2(a: int, b: int) -> int { if a >= b { a } else { b } }
+spec fn mwb_seq<D: TextDecorator>(v: Seq<RenderNode>, k: int, mww: int, d: D) -> int decreases v, k {
+    if k <= 0 || k > v.len() { 0 } else { maxi2(mwb_seq(v, k - 1, mww, d), mwb(v[k - 1], mww, d)) }
+}
+spec fn mwb<D: TextDecorator>(n: RenderNode, mww: int, d: D) -> int decreases n {
+    match n.info {
+        RenderNodeInfo::Text(_) => mww, RenderNodeInfo::Img(_, _) => mww, RenderNodeInfo::Break => 1, RenderNodeInfo::FragStart(_) => 0,
+        RenderNodeInfo::Container(v) => mwb_seq(v@, v@.len() as int, mww, d), RenderNodeInfo::Em(v) => mwb_seq(v@, v@.len() as int, mww, d), RenderNodeInfo::Strong(v) => mwb_seq(v@, v@.len() as int, mww, d),
+        RenderNodeInfo::Strikeout(v) => mwb_seq(v@, v@.len() as int, mww, d), RenderNodeInfo::Code(v) => mwb_seq(v@, v@.len() as int, mww, d), RenderNodeInfo::Block(v) => mwb_seq(v@, v@.len() as int, mww, d),
+        RenderNodeInfo::Div(v) => mwb_seq(v@, v@.len() as int, mww, d), RenderNodeInfo::Dl(v) => mwb_seq(v@, v@.len() as int, mww, d), RenderNodeInfo::Dt(v) => mwb_seq(v@, v@.len() as int, mww, d),
+        RenderNodeInfo::ListItem(v) => mwb_seq(v@, v@.len() as int, mww, d), RenderNodeInfo::Sup(v) => mwb_seq(v@, v@.len() as int, mww, d),
+        RenderNodeInfo::Link(_, v) => maxi2(mwb_seq(v@, v@.len() as int, mww, d), 5),
+        RenderNodeInfo::BlockQuote(v) => sw(d.quote_prefix_spec()) + mwb_seq(v@, v@.len() as int, mww, d),
+        RenderNodeInfo::Ul(v) => sw(d.ul_prefix_spec()) + mwb_seq(v@, v@.len() as int, mww, d),
+        RenderNodeInfo::Dd(v) => sw("  "@) + mwb_seq(v@, v@.len() as int, mww, d),
+        RenderNodeInfo::Header(level, v) => sw(d.header_prefix_spec(level)) + mwb_seq(v@, v@.len() as int, mww, d),
+        RenderNodeInfo::Ol(i, v) => ol_width(i, v@.len() as usize) + mwb_seq(v@, v@.len() as int, mww, d),
+        RenderNodeInfo::Table(_) => wt(n) as int,
+        _ => 0,
+    }
+}
+proof fn lemma_mwb_seq_mono<D: TextDecorator>(v: Seq<RenderNode>, a: int, b: int, mww: int, d: D) requires 0 <= a <= b <= v.len() ensures mwb_seq(v, a, mww, d) <= mwb_seq(v, b, mww, d) decreases b - a { if a < b { lemma_mwb_seq_mono(v, a, b - 1, mww, d); } }
 // what the renderer relies on (C02, C07, C11, C16): prefixed blocks record the display width of the decorator's prefix and reserve it,
 // a link reserves at least 5 columns, everything else has no prefix; A5 bookkeeping: numbers stay below wt(n)
-spec fn good<D: TextDecorator>(r: SizeEstimate, n: RenderNode, d: D) -> bool {
+spec fn good<D: TextDecorator>(r: SizeEstimate, n: RenderNode, d: D, mww: usize) -> bool { good_base(r, n, d) && r.min_width <= mwb(n, mww as int, d) }
+spec fn good_base<D: TextDecorator>(r: SizeEstimate, n: RenderNode, d: D) -> bool {
     &&& r.size <= wt(n) && r.min_width <= wt(n)
     &&& r.min_width >= r.prefix_size
     &&& match n.info {
@@ -186,7 +212,7 @@ spec fn good<D: TextDecorator>(r: SizeEstimate, n: RenderNode, d: D) -> bool {
         }
 }
 // A12 (cache coherence), for a node and everything below it
-spec fn coherent_seq<D: TextDecorator>(v: Seq<RenderNode>, k: int, d: D) -> bool decreases v, k { k <= 0 || k > v.len() || (coherent_seq(v, k - 1, d) && coherent(v[k - 1], d)) }
+spec fn coherent_seq<D: TextDecorator>(v: Seq<RenderNode>, k: int, d: D, mww: usize) -> bool decreases v, k { k <= 0 || k > v.len() || (coherent_seq(v, k - 1, d, mww) && coherent(v[k - 1], d, mww)) }
 spec fn kids_of(i: RenderNodeInfo) -> Seq<RenderNode> {
     match i {
         RenderNodeInfo::Container(v) => v@, RenderNodeInfo::Em(v) => v@, RenderNodeInfo::Strong(v) => v@, RenderNodeInfo::Strikeout(v) => v@, RenderNodeInfo::Code(v) => v@,
@@ -195,20 +221,20 @@ spec fn kids_of(i: RenderNodeInfo) -> Seq<RenderNode> {
         _ => Seq::empty(),
     }
 }
-spec fn coherent<D: TextDecorator>(n: RenderNode, d: D) -> bool decreases n {
-    (cached(n.size_estimate) matches Some(s) ==> good(s, n, d))
+spec fn coherent<D: TextDecorator>(n: RenderNode, d: D, mww: usize) -> bool decreases n {
+    (cached(n.size_estimate) matches Some(s) ==> good(s, n, d, mww))
     && match n.info {
-        RenderNodeInfo::Container(v) => coherent_seq(v@, v@.len() as int, d), RenderNodeInfo::Em(v) => coherent_seq(v@, v@.len() as int, d), RenderNodeInfo::Strong(v) => coherent_seq(v@, v@.len() as int, d),
-        RenderNodeInfo::Strikeout(v) => coherent_seq(v@, v@.len() as int, d), RenderNodeInfo::Code(v) => coherent_seq(v@, v@.len() as int, d), RenderNodeInfo::Block(v) => coherent_seq(v@, v@.len() as int, d),
-        RenderNodeInfo::Div(v) => coherent_seq(v@, v@.len() as int, d), RenderNodeInfo::Dl(v) => coherent_seq(v@, v@.len() as int, d), RenderNodeInfo::Dt(v) => coherent_seq(v@, v@.len() as int, d),
-        RenderNodeInfo::ListItem(v) => coherent_seq(v@, v@.len() as int, d), RenderNodeInfo::Sup(v) => coherent_seq(v@, v@.len() as int, d), RenderNodeInfo::Link(_, v) => coherent_seq(v@, v@.len() as int, d),
-        RenderNodeInfo::Dd(v) => coherent_seq(v@, v@.len() as int, d), RenderNodeInfo::BlockQuote(v) => coherent_seq(v@, v@.len() as int, d), RenderNodeInfo::Ul(v) => coherent_seq(v@, v@.len() as int, d),
-        RenderNodeInfo::Ol(_, v) => coherent_seq(v@, v@.len() as int, d), RenderNodeInfo::Header(_, v) => coherent_seq(v@, v@.len() as int, d),
+        RenderNodeInfo::Container(v) => coherent_seq(v@, v@.len() as int, d, mww), RenderNodeInfo::Em(v) => coherent_seq(v@, v@.len() as int, d, mww), RenderNodeInfo::Strong(v) => coherent_seq(v@, v@.len() as int, d, mww),
+        RenderNodeInfo::Strikeout(v) => coherent_seq(v@, v@.len() as int, d, mww), RenderNodeInfo::Code(v) => coherent_seq(v@, v@.len() as int, d, mww), RenderNodeInfo::Block(v) => coherent_seq(v@, v@.len() as int, d, mww),
+        RenderNodeInfo::Div(v) => coherent_seq(v@, v@.len() as int, d, mww), RenderNodeInfo::Dl(v) => coherent_seq(v@, v@.len() as int, d, mww), RenderNodeInfo::Dt(v) => coherent_seq(v@, v@.len() as int, d, mww),
+        RenderNodeInfo::ListItem(v) => coherent_seq(v@, v@.len() as int, d, mww), RenderNodeInfo::Sup(v) => coherent_seq(v@, v@.len() as int, d, mww), RenderNodeInfo::Link(_, v) => coherent_seq(v@, v@.len() as int, d, mww),
+        RenderNodeInfo::Dd(v) => coherent_seq(v@, v@.len() as int, d, mww), RenderNodeInfo::BlockQuote(v) => coherent_seq(v@, v@.len() as int, d, mww), RenderNodeInfo::Ul(v) => coherent_seq(v@, v@.len() as int, d, mww),
+        RenderNodeInfo::Ol(_, v) => coherent_seq(v@, v@.len() as int, d, mww), RenderNodeInfo::Header(_, v) => coherent_seq(v@, v@.len() as int, d, mww),
         _ => true,
     }
 }
 proof fn lemma_wt_seq_mono(v: Seq<RenderNode>, a: int, b: int) requires 0 <= a <= b <= v.len() ensures wt_seq(v, a) <= wt_seq(v, b) decreases b - a { if a < b { lemma_wt_seq_mono(v, a, b - 1); } }
-proof fn lemma_coh_seq<D: TextDecorator>(v: Seq<RenderNode>, k: int, j: int, d: D) requires 0 <= j < k <= v.len(), coherent_seq(v, k, d) ensures coherent(v[j], d) decreases k { if j < k - 1 { lemma_coh_seq(v, k - 1, j, d); } }
+proof fn lemma_coh_seq<D: TextDecorator>(v: Seq<RenderNode>, k: int, j: int, d: D, mww: usize) requires 0 <= j < k <= v.len(), coherent_seq(v, k, d, mww) ensures coherent(v[j], d, mww) decreases k { if j < k - 1 { lemma_coh_seq(v, k - 1, j, d, mww); } }
 
 impl SizeEstimate {
 //@item src/lib.rs :: impl SizeEstimate :: fn add
@@ -423,16 +449,17 @@ spec fn tree_ok(n: RenderNode) -> bool decreases n {
 proof fn lemma_tree_seq(v: Seq<RenderNode>, k: int, j: int) requires 0 <= j < k <= v.len(), tree_ok_seq(v, k) ensures tree_ok(v[j]), !(v[j].info is TableRow) && !(v[j].info is TableBody) && !(v[j].info is TableCell) decreases k { if j < k - 1 { lemma_tree_seq(v, k - 1, j); } }
 // R7: `v.iter().map(recurse).fold(Default::default(), SizeEstimate::add)` is this left fold (our code, verified)
 fn fold_estimates<D: TextDecorator>(v: &Vec<RenderNode>, context: &HtmlContext, decorator: &D) -> (r: SizeEstimate)
-    requires wt_seq(v@, v@.len() as int) <= 0x4_0000_0000_0000, coherent_seq(v@, v@.len() as int, *decorator), tree_ok_seq(v@, v@.len() as int),
+    requires wt_seq(v@, v@.len() as int) <= 0x4_0000_0000_0000, coherent_seq(v@, v@.len() as int, *decorator, context.min_wrap_width), tree_ok_seq(v@, v@.len() as int),
     ensures r.size <= wt_seq(v@, v@.len() as int), r.min_width <= wt_seq(v@, v@.len() as int), r.prefix_size == 0,
+        r.min_width <= mwb_seq(v@, v@.len() as int, context.min_wrap_width as int, *decorator),
     decreases v, 0int,
 {
     let mut acc = se_zero();
     for k in 0..v.len()
-        invariant acc.size <= wt_seq(v@, k as int), acc.min_width <= wt_seq(v@, k as int), acc.prefix_size == 0,
-            wt_seq(v@, v@.len() as int) <= 0x4_0000_0000_0000, coherent_seq(v@, v@.len() as int, *decorator), tree_ok_seq(v@, v@.len() as int),
+        invariant acc.size <= wt_seq(v@, k as int), acc.min_width <= wt_seq(v@, k as int), acc.prefix_size == 0, acc.min_width <= mwb_seq(v@, k as int, context.min_wrap_width as int, *decorator),
+            wt_seq(v@, v@.len() as int) <= 0x4_0000_0000_0000, coherent_seq(v@, v@.len() as int, *decorator, context.min_wrap_width), tree_ok_seq(v@, v@.len() as int),
     {
-        proof { lemma_wt_seq_mono(v@, k as int + 1, v@.len() as int); lemma_coh_seq(v@, v@.len() as int, k as int, *decorator); lemma_tree_seq(v@, v@.len() as int, k as int); }
+        proof { lemma_wt_seq_mono(v@, k as int + 1, v@.len() as int); lemma_coh_seq(v@, v@.len() as int, k as int, *decorator, context.min_wrap_width); lemma_mwb_seq_mono(v@, k as int + 1, v@.len() as int, context.min_wrap_width as int, *decorator); lemma_tree_seq(v@, v@.len() as int, k as int); }
         let e = v[k].calc_size_estimate(context, decorator);
         acc = acc.add(e);
     }
@@ -457,10 +484,12 @@ impl RenderNode {
         context: &HtmlContext,
         decorator: &D,
     ) -> (r: SizeEstimate)
-        requires wt(*self) <= 0x4_0000_0000_0000, coherent(*self, *decorator), //@w
+        requires wt(*self) <= 0x4_0000_0000_0000, coherent(*self, *decorator, context.min_wrap_width), //@w
             // boundary (A6): table rows, bodies and cells are only ever estimated through their table //@w
             !(self.info is TableRow) && !(self.info is TableBody) && !(self.info is TableCell), tree_ok(*self), //@w
-        ensures good(r, *self, *decorator), //@w @C02 @C07 @C11 @C16 #estimate_records_prefix_width_and_reserves_it
+        ensures good_base(r, *self, *decorator), //@w @C02 @C07 @C11 @C16 #estimate_records_prefix_width_and_reserves_it
+            // C11: nothing reserves more than the prefixes of the blocks around it plus the minimum wrap width (5 for a link)
+            r.min_width <= mwb(*self, context.min_wrap_width as int, *decorator), //@w @C11 #reserved_width_within_prefixes_plus_minimum
             // C11: the minimum content width the layout reserves for text is at most the configured minimum wrap width (a freshly computed estimate; a cached one is returned as it is)
             cached(self.size_estimate) is None && (self.info is Text || self.info is Img) ==> r.min_width <= context.min_wrap_width, //@w @C11 #text_reserves_at_most_min_wrap_width
             cached(self.size_estimate) is None && self.info is Break ==> r.min_width == 1 && r.size == 1, //@w @C11 #break_reserves_one_column
